@@ -90,7 +90,10 @@ func runC18(c *c18Case) (v verdict, sig string, err error) {
 }
 
 func genFilter(t *rapid.T) []uint32 {
-	switch rapid.IntRange(0, 6).Draw(t, "filterkind") {
+	switch rapid.IntRange(0, 8).Draw(t, "filterkind") {
+	case 7:
+		// an entry listed twice (a hand-edited or concatenated list) filters exactly like the entry listed once
+		return rapid.SampledFrom([][]uint32{{1, 1}, {2, 2}, {1, 1, 1}, {2, 1, 2}, {1, 2, 1, 2}, {3, 3, 1}}).Draw(t, "dupfilter")
 	case 0:
 		return []uint32{}
 	case 1:
